@@ -68,7 +68,7 @@ func corpus() []*animenc.History {
 	return hs
 }
 
-func check(c *Ctx, h *animenc.History, fx animenc.Fixes, stream string) {
+func check(c *Ctx, h *animenc.History, stream string) {
 	rng := c.Rng.Fork()
 	o := animenc.Run(h, rng)
 	mode := "px"
@@ -76,7 +76,7 @@ func check(c *Ctx, h *animenc.History, fx animenc.Fixes, stream string) {
 		mode = "st" // the codec hypothesis fails on a written frame: compare the structure only
 		c.Count("correspondence:structure-only")
 	}
-	c.Case(h.CaseLine(mode, fx, o), o.ImplLine(mode))
+	c.Case(h.CaseLine(mode, o), o.ImplLine(mode))
 	c.D.Evaluations++
 	c.Count("stream:" + stream)
 	c.Count(fmt.Sprintf("inputs:%d", len(h.Frames)))
@@ -114,15 +114,13 @@ func check(c *Ctx, h *animenc.History, fx animenc.Fixes, stream string) {
 
 func main() {
 	Main("c08", func(c *Ctx) {
-		fx := animenc.ProbeFixes()
-		c.D.Notes = append(c.D.Notes, fmt.Sprintf("code variant probed (blend test repaired, filler rectangle repaired, ALPH wiring repaired) = %s", fx))
 		c.D.Rule = "lossless encoder sessions: canvas 1x1..24x24, 1..8 AddFrame calls (repeat / small block / cleared block / colour under alpha 0 / single pixel / large change / new picture / smaller-or-larger-than-canvas frames), opaque / binary / graded / boundary alpha, durations incl. 0, 2^24-1 and sums crossing 2^24, 12 Kmin/Kmax settings, loop counts; plus unit cases for findChangedRect, snapToEven, sanitizeKeyframeOptions; non-trivial = >= 2 inputs, distinct = distinct per-written-frame (full, 1x1, blend, dispose, codec) signature"
 		n, nu := 700, 400
 		if c.Thorough() {
 			n, nu = 12000, 5000
 		}
 		for _, h := range corpus() {
-			check(c, h, fx, "corpus")
+			check(c, h, "corpus")
 		}
 		classes := []int{animenc.ClassOpaque, animenc.ClassBinary, animenc.ClassGraded, animenc.ClassBoundary}
 		for i := 0; i < n; i++ {
@@ -132,7 +130,7 @@ func main() {
 				maxDim = 24
 			}
 			h := animenc.RandHistory(rng, maxDim, true, false, 75, classes)
-			check(c, h, fx, "random")
+			check(c, h, "random")
 		}
 		// unit correspondences
 		for i := 0; i < nu; i++ {
